@@ -15,6 +15,11 @@ type Ev struct {
 
 // Matches implements the matching rules of signal and message events.
 func Matches(d gen.EventDef, e Ev) bool {
+	if d.Kind == "timer" {
+		// a firing of the timer written as d.TimerExpr (the harness delivers it
+		// to the model when it advanced the mock clock past the due time)
+		return e.Kind == "timer" && e.Ref == d.TimerExpr
+	}
 	if d.Kind != e.Kind || d.Ref != e.Ref {
 		return false
 	}
